@@ -58,23 +58,22 @@ verus! {
             forall|j: int| 0 <= j < VERUS_ghost_iter.index@ ==>
                 fold_scored::<T, M, H, E, F, S>(fit_estimator, score, x, y, parameters,
                     (#[trigger] VERUS_ghost_iter.seq()[j]).0@, VERUS_ghost_iter.seq()[j].1@, train_score@[j], test_score@[j]), //# inv-consumed-folds-fitted-and-scored-on-their-own-rows
-//@before let train_x =
+//@loopbody 1
         let ghost fold_no = VERUS_ghost_iter.index@;
         let ghost folds = VERUS_ghost_iter.seq();
         proof {
             assert(0 <= fold_no < folds.len());
             assert(folds[fold_no] == (train_idx, test_idx));
         }
-//@before let estimator =
+//@loopend 1
+        // (train_x, train_y, test_x, test_y, estimator are immutable locals of the loop body: what is stated here about them at the
+        // end of the body holds from their definition on)
         proof {
             // the four selections are exactly this fold's training rows / held-out rows of x and of y
             assert(train_x == x.take_spec(train_idx@, 0)); //# fold-train-x-is-exactly-the-train-rows
             assert(train_y == y.take_spec(train_idx@)); //# fold-train-y-is-exactly-the-train-targets
             assert(test_x == x.take_spec(test_idx@, 0)); //# fold-test-x-is-exactly-the-held-out-rows
             assert(test_y == y.take_spec(test_idx@)); //# fold-test-y-is-exactly-the-held-out-targets
-        }
-//@after let estimator =
-        proof {
             assert(fitted_on::<T, M, H, E, F>(fit_estimator, x, y, parameters, train_idx@, estimator)); //# fold-model-fitted-on-exactly-the-train-rows
         }
 //@end
